@@ -246,6 +246,8 @@ def run_kani(pid, part, tier, jobs):
                 expected[n] = (k, f)
     # harnesses of another property's prefix that also decide this one (exact names)
     extra = part.get("extra_harnesses", [])
+    if os.environ.get("VERIF_SKIP_EXTRA"):
+        extra = []  # sweeps: harnesses of another property's prefix are swept with their own unit
     if extra:
         allh = {}
         for f in sorted(glob.glob(os.path.join(KANI_DIR, crate_key, "**", "*.rs"), recursive=True)):
